@@ -430,12 +430,15 @@ def reflection_schema(*, rebuild: bool = False):
     return cached
 
 
-def prime_testbase() -> None:
-    """Make upstream's edb.testbase.lang use the cached std schema instead of
-    rebuilding it (it keeps the schema in module globals)."""
+def prime_testbase(with_reflection: bool = False) -> None:
+    """Make upstream's edb.testbase.lang use the cached std schema (and, if
+    asked, the cached reflection schema) instead of rebuilding them (it keeps
+    them in module globals)."""
     install()
     from edb.testbase import lang
     lang._std_schema = std_schema()
+    if with_reflection:
+        lang._refl_schema, lang._schema_class_layout = reflection_schema()
 
 
 def load_sdl(std, sdl_text: str, modname: str = 'default'):
@@ -496,3 +499,16 @@ def compile_query(schema, text: str, *, modaliases=None, **options):
         qltree, schema,
         options=qlcompiler.CompilerOptions(modaliases=modaliases, **options),
     )
+
+
+def new_compiler():
+    """A server-side `edb.server.compiler.Compiler` exactly as
+    edb/testbase/lang.py::new_compiler builds it (std schema + reflection
+    schema + class layout), from the cached schemas.  Usable for e.g.
+    `edbcompiler.new_compiler_context(compiler_state=c.state, user_schema=...)`
+    + `edbcompiler.compile_edgeql_script(ctx=..., eql=...)` (this produces
+    SQL text; nothing is executed)."""
+    install()
+    prime_testbase(with_reflection=True)
+    from edb.testbase import lang
+    return lang.new_compiler()
